@@ -1215,6 +1215,35 @@ def execute(plan, trace=False):
     owned = OWNED[prop]
     ops = plan["ops"]
 
+    # ---- C07, model-independent oracle: with the FMS attached for the whole lifetime the callback log of the faulty
+    #      plan must equal the log of the same plan with the faults taken out.  The fault-free twin runs in a forked
+    #      grandchild (this child is still single-threaded here) and hands its callback sequence back through a pipe.
+    twin = None
+    if (prop == "C07" and not plan.get("_fault_free_twin") and cfg["fms"]
+            and any(a[0] == "raise" for ev in ops for a in ev["acts"])
+            and not any(a[0] == "ds" and a[3] is not None for ev in ops for a in ev["acts"])
+            # a raising robotPeriodic override never reaches the default implementation's SmartDashboard update, so a
+            # chooser selection made by the dashboard would legitimately take effect later than in the fault-free twin
+            and not (any(a[0] == "select" for ev in ops for a in ev["acts"])
+                     and any(ev["site"] == "robot.robotPeriodic" and any(a[0] == "raise" for a in ev["acts"]) for ev in ops))
+            and util.mix(plan.get("seed", 0), "twin") % 3 == 0):
+        import json as _json
+        rfd, wfd = os.pipe()
+        pid = os.fork()
+        if pid == 0:
+            try:
+                os.close(rfd)
+                stripped = [dict(ev, acts=[a for a in ev["acts"] if a[0] != "raise"]) for ev in ops]
+                res2 = execute(dict(plan, ops=stripped, _fault_free_twin=True))
+                data = _json.dumps(res2.get("_sites", None)).encode()
+                off = 0
+                while off < len(data):
+                    off += os.write(wfd, data[off:])
+            finally:
+                os._exit(0)
+        os.close(wfd)
+        twin = (pid, rfd)
+
     # ---- expected behaviour
     model = RobotModel(cfg, ops)
     try:
@@ -1225,7 +1254,7 @@ def execute(plan, trace=False):
     # ---- the world
     world.goto(cfg["boot_us"])
     clk = world.SimClock()
-    rundir = os.path.join(os.getcwd(), "run")
+    rundir = os.path.join(os.getcwd(), "run_twin" if plan.get("_fault_free_twin") else "run")
     if os.path.isdir(rundir):
         import shutil
         shutil.rmtree(rundir, ignore_errors=True)
@@ -1297,9 +1326,13 @@ def execute(plan, trace=False):
 
     result_box = {}
 
+    probes_extra = {}
+
     def finish():
         ilog = sim.log
         ioutcome = result_box.get("outcome", ("hang",) if sim.aborted == "hang" else ("unknown",))
+        if plan.get("_fault_free_twin"):
+            return {"status": "ok", "_sites": [[r[0], r[1], r[2]] for r in _canon(ilog)] + [list(ioutcome)]}
         status, violation = "ok", None
         exact = bool(cfg["dyadic"]) or prop not in INTEGRATION
         try:
@@ -1323,6 +1356,29 @@ def execute(plan, trace=False):
                             raise Violation(prop, "model.feedback_type", f"topic {key} has type {t.getTypeString()!r}, expected {want!r}", sig=f"{prop}:model.feedback_type")
                 if prop not in INTEGRATION:
                     robot_invariants.check(prop, cfg, ops, ilog, ioutcome)
+                if twin is not None:
+                    import json as _json
+                    chunks = []
+                    while True:
+                        b = os.read(twin[1], 1 << 16)
+                        if not b:
+                            break
+                        chunks.append(b)
+                    os.close(twin[1])
+                    os.waitpid(twin[0], 0)
+                    try:
+                        clean = _json.loads(b"".join(chunks) or b"null")
+                    except Exception:
+                        clean = None
+                    if clean is not None:
+                        mine = [[r[0], r[1], r[2]] for r in _canon(ilog)] + [list(ioutcome)]
+                        if mine != clean:
+                            k = next((i for i, (x, y) in enumerate(zip(mine, clean)) if x != y), min(len(mine), len(clean)))
+                            raise Violation(prop, "inv.fault_free_equivalence",
+                                            f"FMS attached throughout: with the faults the lifetime differs from the fault-free lifetime of the same plan at event {k}: "
+                                            f"{mine[k] if k < len(mine) else 'nothing more'} vs {clean[k] if k < len(clean) else 'nothing more'}",
+                                            sig=f"{prop}:inv.fault_free_equivalence", at=k)
+                        probes_extra["fault_free_twin_compared"] = 1
                 if prop == "C19":
                     # MagicRobot owns one loop watchdog for its whole lifetime (robot.watchdog)
                     last = None
@@ -1334,6 +1390,7 @@ def execute(plan, trace=False):
         except Violation as v:
             status, violation = "violation", v.to_json()
         probes, shape, states, trans = _coverage(cfg, model, mlog, moutcome, ops)
+        probes.update(probes_extra)
         if plan.get("enum"):
             probes["enumerated_cases"] = 1
             probes["enumerated_cases_fault_reached" if model.faults_fired else "enumerated_cases_site_not_reached_in_that_mode"] = 1
